@@ -135,13 +135,46 @@ def call {I} (resetOnRaise : Bool) (cands : List Nat → List SpecK)
     | some (s, .ok i) =>
       match s.pfx with
       | .prefix =>
-        let st' := if st.isNone then some i else st
-        call resetOnRaise cands dec xd fuel st' (bytes.drop (s.size / 8))
+        -- `decode(i=pending)` extends the pending object in place and returns it: `self.__i` is `i`
+        call resetOnRaise cands dec xd fuel (some i) (bytes.drop (s.size / 8))
       | .xdata =>
         match xd i with
         | some i' => (none, .instr i')
         | none => (if resetOnRaise then none else st, .raised 0)
       | .no => (none, .instr i)
+
+/-! ### byte accounting of `ispec.decode` -/
+
+/-- an instruction reduced to what the framework itself maintains: its bytes, and an opaque payload. -/
+structure Ins where
+  bytes : List Nat
+  tag   : Nat
+  deriving Repr, DecidableEq, Inhabited
+
+/-- outcome of a spec's hook (after the length and mask tests passed) -/
+inductive HookOut
+  | reject                       -- InstructionError / precondition false : rolled back
+  | ok (tag : Nat) (extra : Nat) -- accepted; the hook consumed `extra` more bytes of the tail
+  | raise (e : Nat)
+  deriving Repr, DecidableEq, Inhabited
+
+def pendBytes : Option Ins → List Nat
+  | some p => p.bytes
+  | none => []
+
+/-- `ispec.decode` as far as bytes are concerned: `bs = istr[0:blen]`; a fresh instruction gets `bs`,
+    a pending one is extended by `bs`; hooks of variable-length specs append bytes they read from the tail. -/
+def decBytes (accepts : SpecK → List Nat → Bool) (hook : SpecK → List Nat → Option Ins → HookOut)
+    (st : Option Ins) (bytes : List Nat) (s : SpecK) : Out Ins :=
+  let blen := s.size / 8
+  if bytes.length < blen then .reject
+  else if !accepts s bytes then .reject
+  else match hook s bytes st with
+    | .reject => .reject
+    | .raise e => .raise e
+    | .ok tag extra =>
+      let n := if s.pfx == .prefix then 0 else min extra (bytes.length - blen)
+      .ok { bytes := pendBytes st ++ bytes.take (blen + n), tag := tag }
 
 /-! ### certificate checker for a dumped tree -/
 
